@@ -54,6 +54,32 @@ Pure dephasing dimension (`pdeph=` of EvolutionSuperOperator, `PDeph=` of the pr
      propagator raises AttributeError (no attribute 'RelaxationTensor') for it in every entry
      point, so neither side of any clause exists: counted as unsupported configuration.
    extra key: pdeph/set_PureDephasing-differs-from-constructor
+
+Complex Hermitian Hamiltonians ("*-complex" systems) are part of the system alphabet of every
+product: their eigenvector matrix S is complex unitary (S^-1 = S^+ != S^T).
+
+Observation context dimension {outside, inside `with eigenbasis_of(op)`}  (third product):
+   system x generator [x pure dephasing] x op in {H, fixed complex Hermitian X} x step x Nt,
+   inside every point all dense settings.  The object is calculated OUTSIDE (library
+   requirement) and observed inside.  Keys  context/eigenbasis_of(<op>)/...
+      identity, trace, hermiticity, semigroup (all index pairs)        seen in data inside
+      basis-invariant-differs-from-outside   sum_ab U[a,b,a,b](t_i) inside == outside
+      at(t)-differs-from-data, at(t)-after-exit-differs-from-outside, data-after-exit-differs
+      <calling form>/differs-from-direct-propagation/<form>   apply(float), at(t).apply of every
+            SITE matrix unit; apply(float,copy=False) of every matrix unit of the CONTEXT's
+            basis (made inside); read after the context is left, compared with direct
+            propagation of that state done outside (same elementary step: rounding)
+      apply('all')|apply(list)/differs-from-apply(float)       inside the context
+      jit/save=<F|T>/differs-from-all        history (calculate_next; look inside)^k
+   All oracles are independent of the choice of the eigenbasis.
+
+Refinement-request histories on ONE propagator (fourth product), clause "U(t) rho == direct
+propagation": all words of length <= 3 over {setDtRefinement(N), propagate(rho),
+propagate(rho,Nref=N)}, N in {1,2,5}, ending with a propagation; fresh propagator per (word,
+matrix unit); reference = semigroup.effective_refinement (last request decides, counted from
+the time-axis step).  Keys (smallest failing word only; its shape, N abstracted, is in the key)
+      propagate/refinement-history/<shape>/differs-from-superoperator/<form>
+      propagate/refinement-history/<shape>/differs-from-fresh-propagator/<form>
 """
 import numpy
 
@@ -80,7 +106,17 @@ HAMS = {
                    [0, -0.001, 0.004, 0.03]],
     "d4-degenerate": [[0.0, 0, 0, 0], [0, 0.01, 0.003, 0.003], [0, 0.003, 0.01, 0.003],
                       [0, 0.003, 0.003, 0.01]],
+    # complex Hermitian Hamiltonians: the eigenvector matrix is complex unitary (S^-1 = S^+ and
+    # NOT S^T), H^T != H
+    "d2-complex": [[0.0, 0.006 + 0.004j], [0.006 - 0.004j, 0.02]],
+    "d3-complex": [[0.0, 0.004 + 0.003j, 0.0], [0.004 - 0.003j, 0.01, 0.003j],
+                   [0.0, -0.003j, 0.025]],
+    "d3-complex-degenerate": [[0.0, 0.002j, -0.002j], [-0.002j, 0.012, -0.004j],
+                              [0.002j, 0.004j, 0.012]],
+    "d4-complex": [[0.0, 0.002j, 0, 0], [-0.002j, 0.008, 0.005 - 0.002j, -0.001],
+                   [0, 0.005 + 0.002j, 0.015, 0.004j], [0, -0.001, -0.004j, 0.03]],
 }
+COMPLEX_HAMS = [h for h in HAMS if "complex" in h]
 
 
 def _lindblad_set(name, d):
@@ -177,7 +213,10 @@ def _build_generator(case):
     from quantarhei.qm import LindbladForm, SystemBathInteraction, Operator
     sysn, gen = case["sys"], case["gen"]
     if sysn in HAMS:
-        H = numpy.array(HAMS[sysn], dtype=float)
+        H = numpy.array(HAMS[sysn])
+        H = H.astype(complex) if numpy.iscomplexobj(H) else H.astype(float)
+        if not numpy.array_equal(H, H.conj().T):
+            raise isolation.HarnessError("Hamiltonian %s is not Hermitian" % sysn)
         d = H.shape[0]
         hh = qr.Hamiltonian(data=H.copy())
         offdiag = bool(numpy.any(H - numpy.diag(numpy.diag(H))))
@@ -650,8 +689,426 @@ def _mixed_histories(V, sysd, ta, nd, g, tag, U=None):
     return stats
 
 
+
+# ------------------------------------------------------- observation inside a basis context
+CTX_KINDS = ["H", "X"]
+
+
+def _ctx_operator(kind, sysd):
+    """operator whose eigenbasis is the observation basis: the Hamiltonian itself, or a fixed
+    non-degenerate COMPLEX Hermitian operator X (complex unitary eigenvectors for every system)"""
+    if kind == "H":
+        return sysd["ham"]
+    if kind == "X":
+        from quantarhei.qm.hilbertspace.operators import SelfAdjointOperator
+        d = sysd["dim"]
+        X = numpy.zeros((d, d), dtype=complex)
+        for a in range(d):
+            X[a, a] = 1.0 + 0.5 * a
+            for b in range(a + 1, d):
+                X[a, b] = (0.4 / (a + b)) * numpy.exp(1j * (0.7 * (b - a) + 0.3 * a))
+                X[b, a] = numpy.conj(X[a, b])
+        return SelfAdjointOperator(data=X)
+    raise isolation.HarnessError(kind)
+
+
+def _check_context(V, sysd, ta, nd, g, U, P, kind, tag):
+    """The superoperator is calculated OUTSIDE any basis context (as the library requires) and
+    OBSERVED inside `with eigenbasis_of(op)`.  Every clause here is independent of which
+    orthonormal eigenbasis the library picks (phases, degenerate subspaces): no transformation
+    matrix enters the oracle.  Returns the number of extra evaluations."""
+    qr = isolation.qr()
+    d, Nt = sysd["dim"], ta.length
+    form = sysd["form"]
+    K = "context/eigenbasis_of(%s)" % kind
+    one = SG.identity_tensor(d)
+    times = [float(t) for t in ta.data]
+    n_eval = 0
+
+    eso = _eso(sysd, ta, nd, "all")
+    eso.calculate()
+    if not _dev(numpy.array(eso.data), U) <= RTOL * max(1.0, _amax(U)):
+        raise isolation.HarnessError("second calculate() of the same setting differs")
+    op = _ctx_operator(kind, sysd)
+
+    # ---- the stored tensors seen from inside
+    ats = []
+    with qr.eigenbasis_of(op):
+        Ui = numpy.array(eso.data, copy=True)
+        for i in range(Nt):
+            ats.append(eso.at(times[i]))
+        at_in = [numpy.array(a.data, copy=True) for a in ats]
+    Uback = numpy.array(eso.data, copy=True)
+    if Ui.shape != U.shape:
+        V.add("%s/data-shape" % K, "%s: data shape %r inside the context" % (tag, Ui.shape), None)
+        return n_eval
+    e = _dev(Ui[0], one)
+    V.see("context-identity", e, RTOL * d)
+    if not e <= RTOL * d:
+        V.add("%s/identity" % K, "%s: inside the context U(t_0) differs from the identity "
+              "superoperator by %g" % (tag, e), {"nd": nd, "err": e})
+    for i in range(Nt):
+        sc = max(1.0, _amax(Ui[i]))
+        e1, e2 = SG.trace_defect(Ui[i]), SG.hermiticity_defect(Ui[i])
+        V.see("context-trace", e1, RTOL * sc * d)
+        V.see("context-hermiticity", e2, RTOL * sc * d)
+        if not e1 <= RTOL * sc * d:
+            V.add("%s/trace" % K, "%s: inside the context sum_a U[a,a,c,d](t_%d) differs from "
+                  "delta_cd by %g" % (tag, i, e1), {"i": i, "nd": nd, "err": e1})
+        if not e2 <= RTOL * sc * d:
+            V.add("%s/hermiticity" % K, "%s: inside the context conj(U[a,b,c,d]) != U[b,a,d,c] "
+                  "at t_%d, dev %g" % (tag, i, e2), {"i": i, "nd": nd, "err": e2})
+        # the trace of the (d^2 x d^2) matrix is the same in every basis
+        e3 = abs(numpy.trace(SG.as_matrix(Ui[i])) - numpy.trace(SG.as_matrix(U[i])))
+        V.see("context-invariant", e3, RTOL * sc * d * d)
+        if not e3 <= RTOL * sc * d * d:
+            V.add("%s/basis-invariant-differs-from-outside" % K,
+                  "%s: sum_ab U[a,b,a,b](t_%d) inside the context differs from the value outside "
+                  "by %g" % (tag, i, e3), {"i": i, "nd": nd, "err": float(e3)})
+        # at(t) made inside: the same tensor inside, the outside tensor after leaving
+        e4 = _dev(at_in[i], Ui[i])
+        if not e4 <= RTOL * sc:
+            V.add("%s/at(t)-differs-from-data" % K, "%s: at(t_%d).data differs from data[%d] "
+                  "inside the context by %g" % (tag, i, i, e4), {"i": i, "nd": nd})
+        e5 = _dev(numpy.array(ats[i].data), U[i])
+        V.see("context-roundtrip", e5, RTOL * sc * d)
+        if not e5 <= RTOL * sc * d:
+            V.add("%s/at(t)-after-exit-differs-from-outside" % K,
+                  "%s: the SuperOperator at(t_%d) made inside the context differs, after the "
+                  "context is left, from data[%d] outside by %g" % (tag, i, i, e5),
+                  {"i": i, "nd": nd, "err": e5})
+    if getattr(g, "time_independent", True):
+        for i in range(Nt):
+            for j in range(i, Nt - i):
+                tol = RTOL * d * d * max(1.0, _amax(Ui[i])) * max(1.0, _amax(Ui[j]))
+                e = max(_dev(Ui[i + j], SG.compose(Ui[i], Ui[j])),
+                        _dev(Ui[i + j], SG.compose(Ui[j], Ui[i])))
+                V.see("context-semigroup", e, tol)
+                if not e <= tol:
+                    V.add("%s/semigroup" % K, "%s: inside the context U(t_%d+t_%d) != "
+                          "U(t_%d)U(t_%d), dev %g (tol %g)" % (tag, i, j, i, j, e, tol),
+                          {"i": i, "j": j, "nd": nd, "err": e})
+    e = _dev(Uback, U)
+    V.see("context-roundtrip", e, RTOL * d * max(1.0, _amax(U)))
+    if not e <= RTOL * d * max(1.0, _amax(U)):
+        V.add("%s/data-after-exit-differs" % K, "%s: after the context is left the data differ "
+              "from the data before it was entered by %g" % (tag, e), {"nd": nd, "err": e})
+
+    # ---- U(t_i) applied INSIDE the context vs direct propagation (made outside)
+    def compare(formname, i, got, want, n, m, where):
+        tol = RTOL * g.growth[i] ** 2 * d
+        e = _dev(got, want)
+        V.see("context-apply", e, tol)
+        if not e <= tol:
+            V.add("%s/%s/differs-from-direct-propagation/%s" % (K, formname, form),
+                  "%s: %s of %s inside the context, read after leaving it, differs from direct "
+                  "propagation of that state at t_%d by %g (tol %g)"
+                  % (tag, formname, where, i, e, tol), {"i": i, "n": n, "m": m, "nd": nd})
+
+    def guarded(formname, f):
+        try:
+            return f()
+        except Exception as ex:
+            V.add("%s/%s/raises-%s" % (K, formname, type(ex).__name__),
+                  "%s: %s inside the context raises %s: %s"
+                  % (tag, formname, type(ex).__name__, str(ex)[:120]), None)
+            return None
+
+    kw = {}
+    if sysd["relt"] is not None:
+        kw["RTensor"] = sysd["relt"]
+    if sysd["pdeph"] is not None:
+        kw["PDeph"] = sysd["pdeph"]
+    for n in range(d):
+        for m in range(d):
+            # (1) the state is the SITE-basis matrix unit, made outside
+            rho = _unit_rho(d, n, m)
+            single, inplace, viaat = [], [], []
+            with qr.eigenbasis_of(op):
+                for i in range(Nt):
+                    single.append(guarded("apply(float)", lambda: eso.apply(times[i], rho)))
+                    r2 = _unit_rho(d, n, m)      # made inside: E_nm of the CURRENT basis
+                    inplace.append((r2, guarded("apply(float,copy=False)",
+                                                lambda: eso.apply(times[i], r2, copy=False))))
+                    so = guarded("at(t)", lambda: eso.at(times[i]))
+                    viaat.append(None if so is None else
+                                 guarded("at(t).apply", lambda: so.apply(rho)))
+                many = guarded("apply('all')", lambda: eso.apply("all", rho))
+                lst = guarded("apply(list)", lambda: eso.apply(list(times), rho))
+                many_in = None if many is None else numpy.array(many.data, copy=True)
+                lst_in = None if lst is None else numpy.array(lst.data, copy=True)
+                rho_in = numpy.array(rho.data, copy=True)
+                single_in = [None if r is None else numpy.array(r.data, copy=True)
+                             for r in single]
+            n_eval += 5
+            if _dev(numpy.array(rho.data), SG.matrix_unit(d, n, m)) > RTOL:
+                V.add("%s/apply/argument-modified" % K, "%s: apply inside the context changed "
+                      "its argument" % tag, None)
+            for i in range(Nt):
+                want = P[i][:, :, n, m]
+                if single[i] is not None:
+                    compare("apply(float)", i, single[i].data, want, n, m, "site unit E_%d%d" % (n, m))
+                if viaat[i] is not None:
+                    compare("at(t).apply", i, viaat[i].data, want, n, m, "site unit E_%d%d" % (n, m))
+            # the many-times forms return an evolution object; it is compared INSIDE the
+            # context with the single-time results of the same state (both in the context's
+            # basis) - what the object shows after the context is left is a property of the
+            # evolution container, not of the superoperator
+            for nm_, dat in (("apply('all')", many_in), ("apply(list)", lst_in)):
+                if dat is None:
+                    continue
+                if dat.shape != (Nt, d, d):
+                    V.add("%s/%s/shape" % (K, nm_), "%s: %s returns shape %r"
+                          % (tag, nm_, dat.shape), None)
+                    continue
+                for i in range(Nt):
+                    if single_in[i] is None:
+                        continue
+                    e = _dev(dat[i], single_in[i])
+                    if not e <= RTOL * max(1.0, _amax(single_in[i])):
+                        V.add("%s/%s/differs-from-apply(float)" % (K, nm_),
+                              "%s: %s inside the context differs from apply(t_%d, rho) there by "
+                              "%g" % (tag, nm_, i, e), {"i": i, "n": n, "m": m, "nd": nd})
+            # (2) the state is the matrix unit of the CONTEXT's basis (made inside, changed in
+            # place); after the context is left it is an ordinary (complex) matrix whose direct
+            # propagation is calculated from its value outside
+            # the same unit once more, only to learn what it is in the site basis
+            with qr.eigenbasis_of(op):
+                probe = _unit_rho(d, n, m)
+            M0 = numpy.array(probe.data, copy=True)
+            prop = qr.qm.ReducedDensityMatrixPropagator(ta, sysd["ham"], **kw)
+            if nd != 1:
+                prop.setDtRefinement(nd)
+            rho0 = qr.ReducedDensityMatrix(dim=d)      # any matrix, not only Hermitian ones
+            rho0.data[:, :] = M0
+            direct = numpy.array(prop.propagate(rho0).data)
+            n_eval += 1
+            for i in range(Nt):
+                r2, r3 = inplace[i]
+                if r3 is None:
+                    continue
+                compare("apply(float,copy=False)", i, r3.data, direct[i], n, m,
+                        "context-basis unit E'_%d%d" % (n, m))
+    return n_eval
+
+
+def _check_context_jit(V, sysd, ta, nd, g, U, kind, tag):
+    """history  (calculate_next ; look at the data inside the context)^k  on one jit object:
+    what is seen inside after k steps is what the all-at-once object shows inside"""
+    qr = isolation.qr()
+    d, Nt = sysd["dim"], ta.length
+    K = "context/eigenbasis_of(%s)" % kind
+    op = _ctx_operator(kind, sysd)
+    ref = _eso(sysd, ta, nd, "all")
+    ref.calculate()
+    with qr.eigenbasis_of(op):
+        Ui = numpy.array(ref.data, copy=True)
+    n_eval = 0
+    for save in (False, True):
+        sv = "save=%s" % ("T" if save else "F")
+        e = _eso(sysd, ta, nd, "jit")
+        for k in range(1, Nt):
+            e.calculate_next(save=save)
+            n_eval += 1
+            with qr.eigenbasis_of(op):
+                dat = numpy.array(e.data, copy=True)
+            cur = dat[k] if save else dat
+            tol = RTOL * g.growth[k] ** 2 * d
+            err = _dev(cur, Ui[k])
+            V.see("context-jit", err, tol)
+            if not err <= tol:
+                V.add("%s/jit/%s/differs-from-all" % (K, sv),
+                      "%s: after %d x calculate_next(%s) the superoperator seen inside the "
+                      "context differs from index %d of the all-at-once object seen there by %g"
+                      % (tag, k, sv, k, err), {"k": k, "nd": nd, "err": err})
+                break
+            if save:
+                err = _dev(dat[:k + 1], Ui[:k + 1])
+                if not err <= tol:
+                    V.add("%s/jit/%s/saved-history-differs-from-all" % (K, sv),
+                          "%s: rows 0..%d seen inside the context differ by %g" % (tag, k, err),
+                          {"k": k, "nd": nd})
+                    break
+        if U is not None:
+            cur = numpy.array(e.data)
+            cur = cur[Nt - 1] if save else cur
+            err = _dev(cur, U[Nt - 1])
+            if not err <= RTOL * g.growth[Nt - 1] ** 2 * d:
+                V.add("%s/jit/%s/after-exits-differs-from-all" % (K, sv),
+                      "%s: after %d steps, each followed by a look inside the context, the "
+                      "superoperator differs outside from the all-at-once one by %g"
+                      % (tag, Nt - 1, err), {"nd": nd})
+    return n_eval
+
+
+def _eval_context(case):
+    qr = isolation.qr()
+    V = Viol()
+    sysd = build(case)
+    d = sysd["dim"]
+    Nt, step, kind = case["Nt"], case["step"], case["ctx"]
+    ta = qr.TimeAxis(0.0, Nt, step)
+    tag = "%s/%s%s Nt=%d step=%g ctx=eigenbasis_of(%s)" % (
+        case["sys"], case["gen"], "+pdeph:%s" % case["pdeph"] if case.get("pdeph") else "",
+        Nt, step, kind)
+    info = {"unsupported": {}, "mixed": {"refused": 0, "completed": 0, "completed_correct": 0}}
+    nextra = 0
+    last = None
+    for nd in case["dense"]:
+        g = _grid(sysd, step, nd, Nt)
+        eso, U = _calc_all(sysd, ta, nd)
+        if eso is None:
+            info["unsupported"][U] = info["unsupported"].get(U, 0) + 1
+            continue
+        P = _propagate_units(sysd, ta, nd)
+        nextra += d * d + 1
+        t2 = "%s dense=%d" % (tag, nd)
+        # outside (precondition of the comparison inside; the clause itself belongs to the
+        # main product and has its key there)
+        for i in range(Nt):
+            e = _dev(U[i], P[i])
+            if not e <= RTOL * g.growth[i] ** 2:
+                V.add("propagate/same-dense/Nref/%s" % sysd["form"],
+                      "%s: U(t_%d):E_nm differs from propagate(E_nm, Nref=%d) by %g"
+                      % (t2, i, nd, e), {"i": i, "nd": nd, "err": e})
+        nextra += _check_context(V, sysd, ta, nd, g, U, P, kind, t2)
+        nextra += _check_context_jit(V, sysd, ta, nd, g, U, kind, t2)
+        last = U
+    # is the observation basis different from the basis of the calculation at all?
+    Sdat = numpy.array(_ctx_operator(kind, sysd).data)
+    rotated = bool(numpy.any(Sdat - numpy.diag(numpy.diag(Sdat))))
+    info["worst"], info["tight"] = V.worst, 0
+    tr = 0.0 if last is None else complex(numpy.trace(SG.as_matrix(last[-1])))
+    digest = [case["sys"], case["gen"], case.get("pdeph"), Nt, step, "ctx", kind,
+              round(float(numpy.real(tr)), 6), round(float(numpy.imag(tr)), 6),
+              sorted(info["unsupported"]), len(V.items)]
+    return {"nontrivial": rotated and last is not None, "outcome": digest,
+            "violations": V.items, "n": nextra, "info": info}
+
+
+# ------------------------------------------- histories of refinement requests on ONE propagator
+def _letters(ns):
+    """alphabet of requests: S(N) = setDtRefinement(N), P() = propagate(rho),
+    P(N) = propagate(rho, Nref=N) for N > 1 (Nref=1 is the default value of the argument and
+    means 'no request')"""
+    return ([["S", n] for n in ns] + [["P", None]] + [["P", n] for n in ns if n > 1])
+
+
+def _words(ns, maxlen):
+    """all words of length <= maxlen that END with a propagation, simplest first"""
+    L = _letters(ns)
+    out, frontier = [], [[]]
+    for _ in range(maxlen):
+        frontier = [w + [l] for w in frontier for l in L]
+        out += [w for w in frontier if w[-1][0] == "P"]
+    return out
+
+
+def _shape(word):
+    def one(l):
+        if l[0] == "S":
+            return "set(%s)" % ("1" if l[1] == 1 else "N")
+        return "propagate()" if l[1] is None else "propagate(Nref=N)"
+    return ".".join(one(l) for l in word)
+
+
+def _wordstr(word):
+    return ".".join("setDtRefinement(%d)" % l[1] if l[0] == "S" else
+                    ("propagate(rho)" if l[1] is None else "propagate(rho,Nref=%d)" % l[1])
+                    for l in word)
+
+
+def _eval_histories(case):
+    qr = isolation.qr()
+    V = Viol()
+    sysd = build(case)
+    d = sysd["dim"]
+    Nt, step = case["Nt"], case["step"]
+    ns, maxlen = list(case["refinements"]), case["maxlen"]
+    ta = qr.TimeAxis(0.0, Nt, step)
+    tag = "%s/%s%s Nt=%d step=%g" % (case["sys"], case["gen"],
+                                     "+pdeph:%s" % case["pdeph"] if case.get("pdeph") else "",
+                                     Nt, step)
+    form = sysd["form"]
+    info = {"unsupported": {}, "mixed": {"refused": 0, "completed": 0, "completed_correct": 0}}
+    nextra = 0
+    grids = {n: _grid(sysd, step, n, Nt) for n in ns}
+    Uby, fresh = {}, {}
+    for n in ns:
+        eso, U = _calc_all(sysd, ta, n)
+        if eso is None:                   # all-at-once not available: the saved jit history
+            e = _eso(sysd, ta, n, "jit")
+            for _ in range(1, Nt):
+                e.calculate_next(save=True)
+            U = numpy.array(e.data, copy=True)
+        Uby[n] = U
+        fresh[n] = _propagate_units(sysd, ta, n)      # fresh propagator, one request
+        nextra += 1 + d * d
+    kw = {}
+    if sysd["relt"] is not None:
+        kw["RTensor"] = sysd["relt"]
+    if sysd["pdeph"] is not None:
+        kw["PDeph"] = sysd["pdeph"]
+    nwords = 0
+    for word in _words(ns, maxlen):
+        eff = SG.effective_refinement(word)
+        g = grids[eff]
+        nwords += 1
+        for n in range(d):
+            for m in range(d):
+                # a fresh propagator per (word, state): every propagation of the word is
+                # done with the state E_nm, the LAST one is the observation
+                prop = qr.qm.ReducedDensityMatrixPropagator(ta, sysd["ham"], **kw)
+                ev = None
+                for op, N in word:
+                    if op == "S":
+                        prop.setDtRefinement(N)
+                    elif N is None:
+                        ev = prop.propagate(_unit_rho(d, n, m))
+                        nextra += 1
+                    else:
+                        ev = prop.propagate(_unit_rho(d, n, m), Nref=N)
+                        nextra += 1
+                got = numpy.array(ev.data)
+                for ref, name, what in (
+                        (Uby[eff][:, :, :, n, m], "superoperator",
+                         "U(t_i):E_nm of the superoperator with dense step %d" % eff),
+                        (fresh[eff][:, :, :, n, m], "fresh-propagator",
+                         "a fresh propagator with setDtRefinement(%d)" % eff)):
+                    key = "propagate/refinement-history/%s/differs-from-%s/%s" % (
+                        _shape(word), name, form)
+                    if any(k.startswith("propagate/refinement-history/") and
+                           k.endswith("/differs-from-%s/%s" % (name, form)) for k in V.keys):
+                        continue          # the smallest witness is already reported
+                    for i in range(Nt):
+                        tol = RTOL * g.growth[i] ** 2
+                        e = _dev(got[i], ref[i])
+                        V.see("refinement-history", e, tol)
+                        if not e <= tol:
+                            V.add(key, "%s: after the requests %s on ONE propagator (requested "
+                                  "refinement now %d) the propagated E_%d%d differs at t_%d "
+                                  "from %s by %g (tol %g)"
+                                  % (tag, _wordstr(word), eff, n, m, i, what, e, tol),
+                                  {"word": word, "effective": eff, "i": i, "n": n, "m": m,
+                                   "err": e})
+                            break
+    info["worst"], info["tight"] = V.worst, 0
+    info["refinement_words"] = nwords
+    U = Uby[ns[-1]]
+    digest = [case["sys"], case["gen"], case.get("pdeph"), Nt, step, "hist", nwords,
+              round(float(numpy.sum(numpy.abs(U[-1]))), 6), len(V.items)]
+    # non-trivial: different refinements give different states at all
+    differ = _dev(fresh[ns[0]], fresh[ns[-1]]) > 1e-8
+    return {"nontrivial": bool(differ), "outcome": digest, "violations": V.items,
+            "n": nextra, "info": info}
+
+
 # ---------------------------------------------------------------------------------- the case
 def eval_case(case):
+    if case.get("ctx"):
+        return _eval_context(case)
+    if case.get("hist"):
+        return _eval_histories(case)
     qr = isolation.qr()
     V = Viol()
     sysd = build(case)
@@ -825,7 +1282,8 @@ def replay(case):
 # ---------------------------------------------------------------------------------- space
 def cases(tier):
     if tier == "quick":
-        hams = [h for h in HAMS if h.startswith(("d2", "d3"))] + ["d4-coupled"]
+        hams = [h for h in HAMS if h.startswith(("d2", "d3")) and h != "d3-complex-degenerate"] \
+            + ["d4-coupled"]
         aggs = ["dimer"]
         nts = [4, 6]
         steps = [5.0, 50.0, 0.7]
@@ -851,13 +1309,57 @@ def cases(tier):
         # (cost ~ sum of the dense settings): the largest quick setting is 20 instead of 50
         p_dense = [[1, 2, 5, 20]]
     else:
-        p_hams, p_gens, p_aggs = list(HAMS), list(GENS_EXPLICIT), list(AGGS)
+        # (complex Hamiltonians: one representative here, all of them in the other products)
+        p_hams = [h for h in HAMS if h not in COMPLEX_HAMS] + ["d3-complex"]
+        p_gens, p_aggs = list(GENS_EXPLICIT), list(AGGS)
         p_steps, p_nts = list(steps), [4, 6]
         p_dense = [list(DENSE)]
     out += product({"sys": p_hams, "gen": p_gens, "pdeph": PDEPH, "step": p_steps, "Nt": p_nts,
                     "fine_max": fine_max, "dense": p_dense})
     out += product({"sys": p_aggs, "gen": GENS_AGG, "pdeph": PDEPH, "step": p_steps,
                     "Nt": p_nts, "fine_max": fine_max, "dense": p_dense})
+    # ---- observation context: the calculated object looked at / applied inside
+    #      `with eigenbasis_of(op)`, op = the Hamiltonian or a fixed complex Hermitian operator
+    if tier == "quick":
+        c_hams = ["d2-coupled", "d2-complex", "d3-coupled", "d3-complex", "d3-complex-degenerate"]
+        c_aggs, c_steps, c_nts, c_dense = ["dimer"], [5.0, 0.7], [4], [[1, 2, 5]]
+        cp_hams, cp_gens = ["d2-complex", "d3-complex"], ["lindblad-mixed-ten", "lindblad-mixed-op"]
+        cp_aggs, cp_pd, cp_steps = [], ["L-distinct", "G-distinct"], [5.0]
+    else:
+        c_hams, c_aggs, c_steps, c_nts = list(HAMS), list(AGGS), [5.0, 50.0, 0.7], [4, 6]
+        c_dense = [[1, 2, 5, 50]]
+        cp_hams, cp_gens = COMPLEX_HAMS + ["d3-coupled"], [g for g in GENS_EXPLICIT if g != "none"]
+        cp_aggs, cp_pd, cp_steps = list(AGGS), ["L-distinct", "G-distinct"], [5.0]
+    out += product({"sys": c_hams, "gen": GENS_EXPLICIT, "ctx": CTX_KINDS, "step": c_steps,
+                    "Nt": c_nts, "dense": c_dense})
+    out += product({"sys": c_aggs, "gen": GENS_AGG, "ctx": CTX_KINDS, "step": c_steps,
+                    "Nt": c_nts, "dense": c_dense})
+    out += product({"sys": cp_hams, "gen": cp_gens, "pdeph": cp_pd, "ctx": CTX_KINDS,
+                    "step": cp_steps, "Nt": [4], "dense": [[1, 2, 5]]})
+    out += product({"sys": cp_aggs, "gen": GENS_AGG, "pdeph": cp_pd, "ctx": CTX_KINDS,
+                    "step": cp_steps, "Nt": [4], "dense": [[1, 2, 5]]})
+    # ---- histories of refinement requests on ONE propagator object: all words of length
+    #      <= maxlen over {setDtRefinement(N), propagate(rho), propagate(rho, Nref=N)}
+    if tier == "quick":
+        h_hams, h_gens = ["d2-coupled", "d3-complex"], ["none", "lindblad-mixed-ten",
+                                                        "lindblad-mixed-op"]
+        h_aggs, h_agens, h_steps, h_nts = ["dimer"], ["redfield-ten"], [5.0], [4]
+        h_pd = [None, "G-distinct"]
+    else:
+        h_hams = ["d2-coupled", "d2-complex", "d3-coupled", "d3-degenerate", "d3-complex",
+                  "d4-complex"]
+        h_gens = list(GENS_EXPLICIT)
+        h_aggs, h_agens, h_steps, h_nts = list(AGGS), list(GENS_AGG), [5.0, 0.7], [4]
+        h_pd = [None, "L-distinct", "G-distinct"]
+    supported = lambda c: not (c["pdeph"] and c["gen"] == "none")
+    hist = product({"sys": h_hams, "gen": h_gens, "pdeph": h_pd, "hist": [True], "step": h_steps,
+                    "Nt": h_nts, "refinements": [[1, 2, 5]], "maxlen": [3]}, supported)
+    hist += product({"sys": h_aggs, "gen": h_agens, "pdeph": h_pd, "hist": [True],
+                     "step": h_steps, "Nt": h_nts, "refinements": [[1, 2, 5]], "maxlen": [3]})
+    for c in hist:
+        if c["pdeph"] is None:
+            del c["pdeph"]
+    out += hist
     return out
 
 
@@ -870,7 +1372,21 @@ def run(run):
                 "calculate_next history prefix k<=Nt-1 for save=F and save=T, the prefix tree of "
                 "mixed-save words, all index pairs i+j<Nt, all grid times, all matrix units. "
                 "non-trivial = generator couples states (off-diagonal H or relaxation) and at "
-                "least one dense setting has ||L||*dense_step <= 0.5")
+                "least one dense setting has ||L||*dense_step <= 0.5.  Systems include complex "
+                "Hermitian Hamiltonians.  Third product (observation context): system x "
+                "generator [x pure dephasing] x context operator (the Hamiltonian, a fixed complex "
+                "Hermitian operator X) x step x Nt; the object is calculated outside and, for "
+                "every dense setting, looked at and applied inside `with eigenbasis_of(op)`: "
+                "identity, trace, Hermiticity, all index pairs of the semigroup law, at(t), all "
+                "matrix units of the site basis AND of the context's basis through every "
+                "calling form, compared with direct propagation; jit histories (step; look "
+                "inside)^k.  non-trivial there = the context's basis differs from the site "
+                "basis.  Fourth product (refinement histories): system x generator [x pure "
+                "dephasing] x step x Nt x ALL words of length <= 3 over {setDtRefinement(N), "
+                "propagate(rho), propagate(rho, Nref=N)}, N in {1,2,5}, that end with a "
+                "propagation, each on a fresh propagator for every matrix unit; the last "
+                "propagation is compared with the superoperator of the requested refinement and "
+                "with a fresh propagator; non-trivial = refinements 1 and 5 give different states")
     run.assumptions = [
         "reference generator: -i[H,.] + R from Kronecker products (GKSL sum built from the "
         "operators and rates for Lindblad forms; the library's 4-index tensor and RWA "
@@ -894,20 +1410,53 @@ def run(run):
         "pure dephasing without a relaxation tensor raises AttributeError (no attribute "
         "'RelaxationTensor') in propagate(), calculate() and calculate_next() alike: counted as "
         "unsupported configuration",
+        "observation context: the superoperator is CALCULATED outside any basis context (the "
+        "library's stated requirement) and only observed inside; the clauses checked inside "
+        "(identity, trace, Hermiticity, semigroup, sum_ab U[a,b,a,b] equal to its value outside, "
+        "apply == direct propagation made outside) hold in every orthonormal basis, so no "
+        "transformation matrix, eigenvector phase or choice inside a degenerate subspace enters "
+        "an oracle; results of apply() made inside are read after the context is left; the "
+        "many-times forms of apply() are compared inside with the single-time form (what an "
+        "evolution container shows after the context is left is not part of this property)",
+        "refinement requests: the refinement counts from the step of the time axis, the LAST "
+        "request decides (mc/refmodels/semigroup.effective_refinement); propagate(rho) and "
+        "propagate(rho, Nref=1) are the same call (1 is the default of the argument) and are no "
+        "request",
     ]
     cs = cases(run.tier)
+    _pd = lambda c: c.get("pdeph") and not c.get("ctx") and not c.get("hist")
+    _main = [c for c in cs if not c.get("ctx") and not c.get("hist")]
     run.bounds = {"Nt": sorted(set(c["Nt"] for c in cs)), "steps": sorted(set(c["step"] for c in cs)),
                   "dense": DENSE, "systems": sorted(set(c["sys"] for c in cs)),
                   "generators": GENS_EXPLICIT + GENS_AGG, "order": ORDER,
                   "pure_dephasing": [None] + PDEPH,
+                  "observation_context_product": {
+                      "context_operators": CTX_KINDS,
+                      "cases": sum(1 for c in cs if c.get("ctx")),
+                      "dense": sorted(set(n for c in cs if c.get("ctx") for n in c["dense"])),
+                      "Nt": sorted(set(c["Nt"] for c in cs if c.get("ctx"))),
+                      "steps": sorted(set(c["step"] for c in cs if c.get("ctx"))),
+                      "systems": sorted(set(c["sys"] for c in cs if c.get("ctx"))),
+                      "pure_dephasing": sorted(set(str(c.get("pdeph")) for c in cs
+                                                   if c.get("ctx")))},
+                  "refinement_history_product": {
+                      "cases": sum(1 for c in cs if c.get("hist")),
+                      "requests": ["setDtRefinement(N)", "propagate(rho)",
+                                   "propagate(rho,Nref=N>1)"],
+                      "N": [1, 2, 5], "max_word_length": 3, "words_ending_with_propagation": 129,
+                      "Nt": sorted(set(c["Nt"] for c in cs if c.get("hist"))),
+                      "steps": sorted(set(c["step"] for c in cs if c.get("hist"))),
+                      "systems": sorted(set(c["sys"] for c in cs if c.get("hist"))),
+                      "pure_dephasing": sorted(set(str(c.get("pdeph")) for c in cs
+                                                   if c.get("hist")))},
                   "pure_dephasing_product": {
-                      "dense": sorted(set(n for c in cs if c.get("pdeph") for n in c["dense"])),
-                      "Nt": sorted(set(c["Nt"] for c in cs if c.get("pdeph"))),
-                      "steps": sorted(set(c["step"] for c in cs if c.get("pdeph"))),
-                      "systems": sorted(set(c["sys"] for c in cs if c.get("pdeph"))),
-                      "relaxation": sorted(set(c["gen"] for c in cs if c.get("pdeph")))}}
+                      "dense": sorted(set(n for c in cs if _pd(c) for n in c["dense"])),
+                      "Nt": sorted(set(c["Nt"] for c in cs if _pd(c))),
+                      "steps": sorted(set(c["step"] for c in cs if _pd(c))),
+                      "systems": sorted(set(c["sys"] for c in cs if _pd(c))),
+                      "relaxation": sorted(set(c["gen"] for c in cs if _pd(c)))}}
     infos = run_grid(run, rotate(cs, run.seed), eval_case, cap_s=150 if run.tier == "quick" else 1500)
-    worst, unsupported, tight = {}, {}, 0
+    worst, unsupported, tight, nwords = {}, {}, 0, 0
     mixed = {"refused": 0, "completed": 0, "completed_correct": 0}
     for inf in infos:
         for k, (a, r) in inf["worst"].items():
@@ -918,8 +1467,9 @@ def run(run):
         for k in mixed:
             mixed[k] += inf["mixed"][k]
         tight += inf["tight"]
+        nwords += inf.get("refinement_words", 0)
     run.note(worst_deviation_per_clause={k: {"abs": float("%.3g" % v[0]),
                                              "relative_to_tolerance": float("%.3g" % v[1])}
                                          for k, v in sorted(worst.items())},
              unsupported_configurations=unsupported, mixed_save_words=mixed,
-             dense_settings_in_nonstiff_regime=tight)
+             dense_settings_in_nonstiff_regime=tight, refinement_request_words=nwords)
